@@ -923,3 +923,4 @@ def check(run):
     # transport's chunking only if that size-capped read never hands out the first bytes of a delimiter (C14 R7)
     from . import c14 as _c14
     run.rule('R5', _c14.r7_delimiter_not_split, 'header-size-capped read never splits a delimiter (shared with C14)', floor=1)
+    run.rule('R6', _c14.r10_sync_delimiter_not_split, 'sync reader: a bounded read that stops refilling never hands out the head of a straddling delimiter (shared with C14)', floor=1)
